@@ -2422,5 +2422,480 @@ Proof.
            pose proof (nel_fold_defeat "Defeat remaining candidates" (hopefuls A s) s). lia.
 Qed.
 
+
+(* ---- the seat bound for the Minneapolis rule ---- *)
+Lemma eq_mpls_defeat_batch (s : est) : GH s -> crashed s = false -> BatchIn s -> ElQ s ->
+  ElQ (mpls_defeat_batch A cfg s) /\ FR s (mpls_defeat_batch A cfg s).
+Proof.
+  intros G Hc HB0 H. unfold mpls_defeat_batch. cbv zeta.
+  assert (Hl: forall c, In c (cands_of A s (lv_batch s)) -> In (cid c) (map (@cid A) (cands s))).
+  { intros c Hcin. apply in_map. exact (proj1 (cands_of_in A s _ c Hcin)). }
+  set (mf := fun c : cand => if cundecl c then "Defeat undeclared write-in"%string else "Defeat certain loser"%string).
+  destruct (fold_defeat_facts' mf _ s G Hl) as (G1 & Ecr & Eid & Elb & _ & HD). cbv zeta in *.
+  pose proof (elq_fold_defeat' mf (cands_of A s (lv_batch s)) s H) as H1.
+  assert (F1: FR s (fold_left (fun s c => defeat A cfg (cid c) (mf c) s) (cands_of A s (lv_batch s)) s)).
+  { apply (fr_fold (fun s c => defeat A cfg (cid c) (mf c) s)). intros; apply fr_defeat. }
+  fold mf. set (s1 := fold_left (fun s c => defeat A cfg (cid c) (mf c) s) (cands_of A s (lv_batch s)) s) in *.
+  pose proof (elq_plain (mpls_keep A) (top_in A (lv_batch s)) s1 G1 H1) as H2.
+  pose proof (fr_plain (mpls_keep A) (top_in A (lv_batch s)) s1 G1) as F2.
+  set (s2 := for_ballots A (transfer A (mpls_keep A)) (top_in A (lv_batch s)) s1) in *.
+  destruct (fold_set_vote_frame (V0 A) (lv_batch s) s2) as (_ & _ & E3 & E4 & _). cbv zeta in *.
+  split.
+  - apply elq_log. match goal with |- ElQ (set_surplus ?x _) => apply (elq_same x); [reflexivity|reflexivity|] end.
+    apply elq_fold_set_vote0; [|exact H2]. intros i c Hi Hcin Ei He.
+    destruct (cands_of_has s (lv_batch s) i Hi (HB0 i Hi)) as (c0 & Hc0 & Ec0).
+    pose proof (HD c0 Hc0) as HS. rewrite Ec0 in HS.
+    pose proof (sat_stl s1 s2 i isD (stl_for_ballots_plain (mpls_keep A) (top_in A (lv_batch s)) s1) HS c Hcin Ei) as HDD.
+    unfold isD in HDD. cbn in HDD. congruence.
+  - eapply fr_trans; [exact F1|]. eapply fr_trans; [exact F2|]. eapply fr_trans; [|apply fr_log]. apply fr_same; assumption.
+Qed.
+
+Lemma eq_mpls_defeat_low (s : est) : GH s -> crashed s = false -> ElQ s ->
+  ElQ (mpls_defeat_low A cfg s) /\ FR s (mpls_defeat_low A cfg s).
+Proof.
+  intros G Hc H. unfold mpls_defeat_low.
+  destruct (low_candidates A s) as [[lv lows]|] eqn:El; [|split; [apply (elq_same s); [reflexivity|reflexivity|exact H]|apply fr_same; reflexivity]].
+  destruct (bt_frame (bt_simple A cfg "defeat low candidate") lows s (bt_simple_logs _) G) as (G1 & Ec1 & Eb1 & Eq1 & Ecr1).
+  destruct (bt_simple_ok A cfg "defeat low candidate" lows s) as (_ & _ & Hmem).
+  assert (H1: ElQ (fst (bt_simple A cfg "defeat low candidate" lows s))) by (apply (elq_same s); assumption).
+  pose proof (fr_bt (bt_simple A cfg "defeat low candidate") lows s (bt_simple_logs _)) as F1.
+  destruct (bt_simple A cfg "defeat low candidate" lows s) as [s1 [l|]] eqn:Ebt; cbn [fst snd] in *; [|split; assumption].
+  destruct (Hmem l eq_refl) as (c & Hcl & Hid). destruct (low_in_hop s lv lows c El Hcl) as [Hcin Hh].
+  assert (Hi1: In l (map (@cid A) (cands s1))) by (rewrite Ec1, <- Hid; apply in_map; exact Hcin).
+  set (s2 := defeat A cfg l "Defeat low candidate" s1) in *. cbv zeta.
+  assert (G2: GH s2) by (apply gh_defeat; exact G1).
+  assert (H2: ElQ s2) by (apply elq_defeat; exact H1).
+  assert (F2: FR s s2) by (eapply fr_trans; [exact F1|apply fr_defeat]).
+  destruct (crashed s2); [split; assumption|].
+  destruct (seats_left A cfg s2 <? nlen (hopefuls A s2)); [|split; assumption].
+  pose proof (elq_plain (mpls_keep A) (top_is A l) s2 G2 H2) as H3.
+  pose proof (fr_plain (mpls_keep A) (top_is A l) s2 G2) as F3.
+  set (s3 := for_ballots A (transfer A (mpls_keep A)) (top_is A l) s2) in *.
+  split.
+  - apply elq_log. match goal with |- ElQ (set_surplus ?x _) => apply (elq_same x); [reflexivity|reflexivity|] end.
+    apply elq_set_vote_other; [|exact H3]. intros c' Hc' Ei He.
+    pose proof (sat_stl s2 s3 l isD (stl_for_ballots_plain (mpls_keep A) (top_is A l) s2) (sat_defeat_D l "Defeat low candidate" s1 Hi1) c' Hc' Ei) as HDD.
+    unfold isD in HDD. cbn in HDD. congruence.
+  - eapply fr_trans; [exact F2|]. eapply fr_trans; [exact F3|]. eapply fr_trans; [|apply fr_log]. apply fr_same; reflexivity.
+Qed.
+
+Lemma eq_mpls_elect_high (s : est) : GH s -> crashed s = false -> ElQ s ->
+  ElQ (mpls_elect_high A cfg s) /\ FR s (mpls_elect_high A cfg s).
+Proof.
+  intros G Hc H. unfold mpls_elect_high. cbv zeta.
+  destruct (max_vote A (hopeful_with_quota A false s)) as [hv|]; [|split; [apply (elq_same s); [reflexivity|reflexivity|exact H]|apply fr_same; reflexivity]].
+  set (highs := filter (fun c => eqv A (cvote c) hv) (hopeful_with_quota A false s)) in *.
+  destruct (bt_frame (bt_simple A cfg "largest surplus") highs s (bt_simple_logs _) G) as (G1 & Ec1 & Eb1 & Eq1 & Ecr1).
+  destruct (bt_simple_ok A cfg "largest surplus" highs s) as (_ & _ & Hmem).
+  assert (H1: ElQ (fst (bt_simple A cfg "largest surplus" highs s))) by (apply (elq_same s); assumption).
+  pose proof (fr_bt (bt_simple A cfg "largest surplus") highs s (bt_simple_logs _)) as F1.
+  destruct (bt_simple A cfg "largest surplus" highs s) as [s1 [h|]] eqn:Ebt; cbn [fst snd] in *; [|split; assumption].
+  destruct (Hmem h eq_refl) as (c & Hch & Hid). unfold highs in Hch. apply filter_In in Hch. destruct Hch as [Hhq _].
+  assert (Hq: R (quota s) <= R (cvote c)).
+  { unfold hopeful_with_quota in Hhq. apply filter_In in Hhq. destruct Hhq as [_ Hx]. apply andb_prop in Hx. apply ge_quota_le. exact (proj2 Hx). }
+  pose proof (hwq_in A s false c Hhq) as Hhop. unfold hopefuls in Hhop. apply filter_In in Hhop. destruct Hhop as [Hcin Hh].
+  pose proof (g_nd _ _ (proj1 G)) as Hnd.
+  assert (Hi1: In h (map (@cid A) (cands s1))) by (rewrite Ec1, <- Hid; apply in_map; exact Hcin).
+  destruct (elect_found h "Elect" false s1 Hi1) as (Ec2 & Eb2 & Eq2 & Ecr2).
+  assert (HQ1: HQ s1 h).
+  { intros c' Hc' Ei. rewrite Ec1 in Hc'. rewrite Eq1. rewrite <- Hid in Ei. pose proof (nodup_cid_inj' (cands s) c' c Hnd Hc' Hcin (eq_sym Ei)) as Ecc. first [rewrite Ecc|rewrite <- Ecc]; exact Hq. }
+  set (s2 := elect A cfg h "Elect" false s1) in *.
+  assert (G2: GH s2) by (apply gh_elect_np; exact G1).
+  assert (H2: ElQ s2) by (apply elq_elect; assumption).
+  assert (F2: FR s s2) by (eapply fr_trans; [exact F1|apply fr_elect]).
+  destruct (crashed s2) eqn:Hc2; [split; assumption|].
+  set (surp := sub A (cvote_of A s2 h) (quota s2)).
+  assert (Hs: 0 <= R surp /\ 0 <= R (cvote_of A s2 h)).
+  { unfold surp. rewrite (r_sub A S ZL). unfold cvote_of. destruct (find_cand A (cands s2) h) as [c2|] eqn:Ef2.
+    - destruct (find_cand_In _ _ _ Ef2) as [Hc2in Hid2].
+      assert (He2: cst c2 = Elected).
+      { rewrite Ec2 in Hc2in. destruct (in_upd_cand' _ _ _ _ Hc2in) as (c0 & Hc0 & [[Ei ->]|[Ei ->]]); [reflexivity|congruence]. }
+      pose proof (H2 c2 Hc2in He2). pose proof (g_nonneg _ _ (proj1 G2) c2 Hc2in). lia.
+    - exfalso. assert (Hin2: In h (map (@cid A) (cands s2))) by (rewrite Ec2, cids_upd; [exact Hi1|reflexivity]).
+      destruct (find_cand_in A _ _ Hin2) as [c2 E2]. congruence. }
+  destruct (elq_for_ballots (mpls_keep A) (fun s b => rew_wigm A (bweight b) surp (cvote_of A s h)) (top_is A h)
+              (fun t => 0 <= R (cvote_of A t h)) s2) as (H3 & _ & F3); try assumption.
+  - intros t b w Ht [Hw0 _] Ew. exact (proj1 (rew_wigm_ok (bweight b) surp (cvote_of A t h) w Hw0 (proj1 Hs) Ht Ew)).
+  - intros t t' Ht Hm. pose proof (cvote_of_mono (cands t) (cands t') h Hm) as Hle. unfold cvote_of. unfold cvote_of in Ht. lia.
+  - exact (proj2 Hs).
+  - change (for_ballots A (f_gen (mpls_keep A) (fun s b => rew_wigm A (bweight b) surp (cvote_of A s h))) (top_is A h) s2)
+      with (for_ballots A (reweigh_transfer A (mpls_keep A) (rew_wigm A) h surp) (top_is A h) s2) in H3, F3.
+    set (s3 := for_ballots A (reweigh_transfer A (mpls_keep A) (rew_wigm A) h surp) (top_is A h) s2) in *.
+    assert (F3': FR s s3) by (eapply fr_trans; [exact F2|exact F3]).
+    destruct (crashed s3); [split; assumption|]. split.
+    + apply elq_log. match goal with |- ElQ (set_surplus ?x _) => apply (elq_same x); [reflexivity|reflexivity|] end. apply elq_set_vote_quota; exact H3.
+    + eapply fr_trans; [exact F3'|]. eapply fr_trans; [|apply fr_log]. apply fr_same; reflexivity.
+Qed.
+
+Lemma start_ge q (s : est) : Pre2 s -> 0 <= R q -> QX q -> crashed (start_count A (Ok q) s) = false ->
+  GH (start_count A (Ok q) s) /\ EQ (start_count A (Ok q) s).
+Proof.
+  intros [P Hne] Hq0 Hqx Hc. destruct (start_facts q s P) as (Est & Eqq & Eex).
+  assert (G: GH (start_count A (Ok q) s)) by (apply gh_start; assumption).
+  split; [exact G|].
+  assert (Hno: forall c, In c (cands (start_count A (Ok q) s)) -> cst c <> Elected).
+  { intros c Hcin He.
+    assert (Hin: In (cid c, (cst c, cpend c)) (stl (cands (start_count A (Ok q) s)))) by (unfold Forward.stl; apply in_map_iff; exists c; auto).
+    rewrite Est in Hin. unfold Forward.stl in Hin. apply in_map_iff in Hin. destruct Hin as (c0 & E0 & Hc0).
+    apply (Hne c0 Hc0). pose proof (f_equal (fun x => fst (snd x)) E0) as E1. cbn in E1. congruence. }
+  split; [intros c Hcin He; exfalso; exact (Hno c Hcin He)|].
+  rewrite Eex, Eqq. split; [unfold V0; rewrite (r_of_int A S ZL); lia|exact Hqx].
+Qed.
+
+Lemma hq_of_member (s : est) c : GH s -> In c (cands s) -> R (quota s) <= R (cvote c) -> HQ s (cid c).
+Proof.
+  intros G Hcin Hq c' Hc' Ei. pose proof (nodup_cid_inj' (cands s) c' c (g_nd _ _ (proj1 G)) Hc' Hcin (eq_sym Ei)) as Ecc.
+  first [rewrite Ecc|rewrite <- Ecc]; exact Hq.
+Qed.
+
+Theorem mpls_seats : T3 Pre2 (mpls A cfg) SeatsOK SeatsOK SeatsOK.
+Proof.
+  unfold mpls. eapply t_seq with (M := GE).
+  - apply t_do_nc. intros s P Hcf. unfold new_round in Hcf. rewrite crashed_log in Hcf.
+    change (crashed (start_count A (Ok (integer_droop_quota A cfg)) s) = false) in Hcf.
+    destruct (start_ge _ s P (integer_quota_nonneg) integer_quota_exceeds Hcf) as [G E].
+    destruct (ge_new_round _ G E) as [G1 E1].
+    split; [split; [exact G1|unfold new_round; rewrite crashed_log; exact Hcf]|exact E1].
+  - eapply t_seq with (M := GE).
+    + eapply t_post; [|apply (t_while est (@crashed A) GE GE)]; [intros s [Hs|[Hs _]]; exact Hs|].
+      eapply t_pre; [intros s [Hs _]; exact Hs|].
+      eapply t_seq with (M := GE).
+      { apply pnc2_triple; cbn [pnc2]; intros s G E _ _. split; [apply gh_log; apply (gh_same s); try reflexivity; exact G|].
+        apply (eq_fr s); [eapply fr_trans; [|apply fr_log]; apply fr_same; reflexivity|apply elq_log; apply (elq_same s); [reflexivity|reflexivity|exact (proj1 E)]|exact E]. }
+      eapply t_seq with (M := GE).
+      { apply pnc2_triple; cbn [pnc2]. repeat match goal with |- _ /\ _ => split | |- True => exact I end.
+        intros s G E _ _. split; [apply gh_fold_elect_np; exact G|].
+        apply (eq_fr s); [apply (fr_fold (fun s c => elect A cfg (cid c) "Candidate at threshold" false s)); intros; apply fr_elect| |exact E].
+        apply (elq_fold_elect (Some "Candidate at threshold"%string) (fun _ _ => false)); [exact (proj1 E)|].
+        intros c Hc. pose proof (hwq_in A s true c Hc) as Hhop. unfold hopefuls in Hhop. apply filter_In in Hhop. destruct Hhop as [Hcin _].
+        apply hq_of_member; [exact G|exact Hcin|]. unfold hopeful_with_quota in Hc. apply filter_In in Hc. destruct Hc as [_ Hx]. apply andb_prop in Hx. apply ge_quota_le. exact (proj2 Hx). }
+      eapply t_seq with (M := GE); [apply pnc2_triple; cbn [pnc2]; intros s G E _ _; apply ge_new_round; assumption|].
+      eapply t_seq with (M := GEI).
+      { apply t_do_nc. intros s [[G Hc] E] Hcf. destruct (mpls_find_defeats_in s G Hcf) as (G1 & HB0 & _). split; [split; [split; assumption|]|exact HB0].
+        unfold mpls_find_defeats in *. cbv zeta in *.
+        match goal with |- context[match ?u with Ok _ => _ | Raise _ => _ end] => destruct u as [uv|e] end; [|rewrite sticky_set_crash in Hcf; discriminate].
+        apply (eq_fr s); [apply fr_same; reflexivity|apply (elq_same s); [reflexivity|reflexivity|exact (proj1 E)]|exact E]. }
+      eapply t_seq with (M := GE).
+      { apply t_ite; [|apply t_skip'; intros s [[Hs _] _]; exact Hs].
+        eapply t_seq with (M := GE); [|apply t_continue'; auto].
+        apply t_do_nc. intros s [[[[G Hc] E] HB0] _] _. destruct (gh_mpls_defeat_batch s G Hc HB0) as [G1 Hc1].
+        destruct (eq_mpls_defeat_batch s G Hc HB0 (proj1 E)) as [H1 F1]. split; [split; assumption|exact (eq_fr s _ F1 H1 E)]. }
+      apply pnc2_triple. cbn [pnc2]. repeat match goal with |- _ /\ _ => split | |- True => exact I end.
+      * intros s G E Hc Hcf. split; [apply gh_mpls_elect_high; assumption|]. destruct (eq_mpls_elect_high s G Hc (proj1 E)) as [H1 F1]. exact (eq_fr s _ F1 H1 E).
+      * intros s G E Hc Hcf. split; [apply gh_mpls_defeat_low; assumption|]. destruct (eq_mpls_defeat_low s G Hc (proj1 E)) as [H1 F1]. exact (eq_fr s _ F1 H1 E).
+    + eapply t_seq with (M := SeatsOK).
+      * apply t_ite; [|apply t_skip'; intros s [[[G Hc] E] _]; split; [split; assumption|exact (seats_bound s (proj1 G) E)]].
+        apply t_do_nc. intros s [[[G Hc] E] Hg] Hcf. split; [split; [apply gh_fold_elect_np; exact G|exact Hcf]|].
+        pose proof (nel_fold_elect "Elect remaining candidates" false (hopefuls A s) s (g_nd _ _ (proj1 G))) as Hle.
+        pose proof (seats_bound s (proj1 G) E) as Hsb.
+        unfold seats_left, electeds in Hg. unfold nel, electeds in *. lia.
+      * apply t_ite; [|apply t_skip'; intros s [Hs _]; exact Hs].
+        apply t_do_nc. intros s [[[G Hc] Hn] Hg] Hcf. split; [split; [apply gh_fold_defeat; exact G|exact Hcf]|].
+        pose proof (nel_fold_defeat "Defeat remaining candidates" (hopefuls A s) s). lia.
+Qed.
+
+
+(* ---- the round number only changes in new_round ---- *)
+Lemma rd_log t m (s : est) : round (log_action A cfg t m s) = round s.
+Proof. unfold log_action. destruct (is_log t); [reflexivity|]. destruct (is_round t); reflexivity. Qed.
+Lemma rd_elect i m p (s : est) : round (elect A cfg i m p s) = round s.
+Proof. unfold elect. destruct (find_cand A (cands s) i); [rewrite rd_log|]; reflexivity. Qed.
+Lemma rd_defeat i m (s : est) : round (defeat A cfg i m s) = round s.
+Proof. unfold defeat. destruct (find_cand A (cands s) i); [rewrite rd_log|]; reflexivity. Qed.
+Lemma rd_unpend i m (s : est) : round (unpend A cfg i m s) = round s.
+Proof.
+  unfold unpend. destruct (find_cand A (cands s) i) as [c|]; [|reflexivity]. destruct (is_pending A c); [|reflexivity].
+  destruct m; [rewrite rd_log|]; reflexivity.
+Qed.
+Lemma rd_fold {X} (g : est -> X -> est) (l : list X) : (forall s x, round (g s x) = round s) -> forall s, round (fold_left g l s) = round s.
+Proof. intros Hg. induction l as [|x l IH]; intros s; cbn [fold_left]; [reflexivity|]. rewrite IH. apply Hg. Qed.
+Lemma rd_bt bt tied (s : est) : bt_logs bt -> round (fst (bt tied s)) = round s.
+Proof. intros Hb. destruct (Hb tied s) as [E|[(t & m & E)|(e & E & _)]]; rewrite E; [reflexivity|apply rd_log|reflexivity]. Qed.
+Lemma rd_transfer keep (s : est) b : round (fst (transfer A keep s b)) = round s.
+Proof. pose proof (transfer_spec keep s b) as H. cbv zeta in H. destruct H as (_ & _ & _ & [(c & cc & _ & _ & _ & E)|(_ & E)]); rewrite E; reflexivity. Qed.
+Lemma rd_pb keep wsel sel bs : forall (s : est) acc, round (fst (process_ballots A (f_gen keep wsel) sel bs s acc)) = round s.
+Proof.
+  induction bs as [|b t IH]; intros s acc; cbn [process_ballots]; [reflexivity|]. destruct (crashed s); [reflexivity|]. destruct (sel b); [|apply IH].
+  destruct (f_gen keep wsel s b) as [s1 b1] eqn:Ef. rewrite IH. unfold f_gen in Ef. destruct (wsel s b) as [w0|e0]; [|inversion Ef; reflexivity].
+  pose proof (rd_transfer keep s (with_bweight b w0)) as Hq. rewrite Ef in Hq. exact Hq.
+Qed.
+Lemma rd_for_ballots keep wsel sel (s : est) : round (for_ballots A (f_gen keep wsel) sel s) = round s.
+Proof.
+  unfold for_ballots. pose proof (rd_pb keep wsel sel (ballots s) s []) as Hq.
+  destruct (process_ballots A (f_gen keep wsel) sel (ballots s) s []) as [s1 bs1]. exact Hq.
+Qed.
+Lemma rd_plain keep sel (s : est) : round (for_ballots A (transfer A keep) sel s) = round s.
+Proof. rewrite (for_ballots_ext _ _ sel s (transfer_as_gen keep)). apply rd_for_ballots. Qed.
+Lemma rd_fold_set_vote x (l : list Z) : forall s : est, round (fold_left (fun s i => set_vote A i x s) l s) = round s.
+Proof. apply rd_fold. reflexivity. Qed.
+Lemma rd_elect_with_quota hq pend msg extra (s : est) : round (elect_with_quota A cfg hq pend msg extra s) = round s.
+Proof. unfold elect_with_quota. cbv zeta. apply rd_fold. intros s0 c. destruct msg; [|unfold elect_default]; apply rd_elect. Qed.
+Lemma rd_unpend_all (s : est) : round (unpend_all A cfg s) = round s.
+Proof. unfold unpend_all. apply rd_fold. intros; apply rd_unpend. Qed.
+Lemma rd_transfer_batch keep (s : est) : round (transfer_batch A cfg keep s) = round s.
+Proof. unfold transfer_batch. cbv zeta. rewrite rd_log, rd_fold_set_vote, rd_plain. reflexivity. Qed.
+Lemma rd_defeat_batch_order msg (s : est) : round (defeat_batch_in_ballot_order A cfg msg s) = round s.
+Proof. unfold defeat_batch_in_ballot_order. apply rd_fold. intros; apply rd_defeat. Qed.
+Lemma rd_cfer_defeat_low (s : est) : round (cfer_defeat_low A cfg s) = round s.
+Proof.
+  unfold cfer_defeat_low. destruct (low_candidates A s) as [[lv lows]|]; [|reflexivity].
+  pose proof (rd_bt (bt_simple A cfg "defeat") lows s (bt_simple_logs _)) as E.
+  destruct (bt_simple A cfg "defeat" lows s) as [s1 [l|]]; cbn [fst] in E; [|exact E]. cbn [round set_batch]. rewrite rd_defeat. exact E.
+Qed.
+Lemma rd_cfer_step (s : est) c : round (cfer_step s c) = round s.
+Proof.
+  unfold cfer_step. destruct (crashed s); [reflexivity|]. cbv zeta.
+  pose proof (rd_unpend (cid c) (Some "Transfer surplus"%string) s) as E2.
+  set (s2 := unpend A cfg (cid c) (Some "Transfer surplus"%string) s) in *.
+  destruct (crashed s2); [exact E2|].
+  pose proof (rd_for_ballots (is_hopeful A) (fun s b => rew_wigm A (bweight b) (sub A (cvote_of A s2 (cid c)) (quota s2)) (cvote_of A s (cid c))) (top_is A (cid c)) s2) as E3.
+  change (for_ballots A (f_gen (is_hopeful A) (fun s b => rew_wigm A (bweight b) (sub A (cvote_of A s2 (cid c)) (quota s2)) (cvote_of A s (cid c)))) (top_is A (cid c)) s2)
+    with (for_ballots A (reweigh_transfer A (is_hopeful A) (rew_wigm A) (cid c) (sub A (cvote_of A s2 (cid c)) (quota s2))) (top_is A (cid c)) s2) in E3.
+  set (s3 := for_ballots A (reweigh_transfer A (is_hopeful A) (rew_wigm A) (cid c) (sub A (cvote_of A s2 (cid c)) (quota s2))) (top_is A (cid c)) s2) in *.
+  destruct (crashed s3); [congruence|]. rewrite rd_log. transitivity (round s3); [reflexivity|congruence].
+Qed.
+Lemma rd_cfer_transfer_all (s : est) : round (cfer_transfer_all_pending A cfg s) = round s.
+Proof.
+  unfold cfer_transfer_all_pending. change (fold_left _ (pendings A s) s) with (fold_left cfer_step (pendings A s) s).
+  apply rd_fold. intros; apply rd_cfer_step.
+Qed.
+Lemma rd_start q (s : est) : round (start_count A (Ok q) s) = round s.
+Proof.
+  unfold start_count, initial_count. cbn [round set_exhausted].
+  rewrite (rd_fold (fun s b => match top_rank A b with Some c => add_vote A c (bvote A b) s | None => set_crash s AttributeError end)); [reflexivity|].
+  intros s0 b. destruct (top_rank A b); reflexivity.
+Qed.
+
+Lemma eq_cfer_step (s : est) c : GH s -> In c (cands s) -> is_pending A c = true -> ElQ s ->
+  ElQ (cfer_step s c) /\ FR s (cfer_step s c).
+Proof.
+  intros G Hcin Ep H. unfold cfer_step. destruct (crashed s) eqn:Hc; [split; [exact H|apply fr_refl]|]. cbv zeta.
+  set (h := cid c).
+  set (s2 := unpend A cfg h (Some "Transfer surplus"%string) s).
+  assert (G2: GH s2) by (apply gh_unpend; exact G).
+  assert (H2: ElQ s2) by (apply elq_unpend; assumption).
+  assert (F2: FR s s2) by apply fr_unpend.
+  destruct (crashed s2) eqn:Hc2; [split; assumption|].
+  set (surp := sub A (cvote_of A s2 h) (quota s2)).
+  assert (Hs: 0 <= R surp /\ 0 <= R (cvote_of A s2 h)).
+  { unfold surp. rewrite (r_sub A S ZL). unfold cvote_of. destruct (find_cand A (cands s2) h) as [c2|] eqn:Ef2.
+    - destruct (find_cand_In _ _ _ Ef2) as [Hc2in Hid2].
+      assert (He2: cst c2 = Elected).
+      { destruct (unpend_pending h (Some "Transfer surplus"%string) s c (g_nd _ _ (proj1 G)) Hcin eq_refl Ep) as (Ec2 & _).
+        fold s2 in Ec2. rewrite Ec2 in Hc2in. destruct (in_upd_cand' _ _ _ _ Hc2in) as (c0 & Hc0 & [[Ei ->]|[Ei ->]]); [reflexivity|congruence]. }
+      pose proof (H2 c2 Hc2in He2). pose proof (g_nonneg _ _ (proj1 G2) c2 Hc2in). lia.
+    - exfalso.
+      destruct (unpend_pending h (Some "Transfer surplus"%string) s c (g_nd _ _ (proj1 G)) Hcin eq_refl Ep) as (Ec2 & _). fold s2 in Ec2.
+      assert (Hin2: In h (map (@cid A) (cands s2))) by (rewrite Ec2, cids_upd; [apply in_map; exact Hcin|reflexivity]).
+      destruct (find_cand_in A _ _ Hin2) as [c2 E2]. congruence. }
+  destruct (elq_for_ballots (is_hopeful A) (fun s b => rew_wigm A (bweight b) surp (cvote_of A s h)) (top_is A h)
+              (fun t => 0 <= R (cvote_of A t h)) s2) as (H3 & _ & F3); try assumption.
+  - intros t b w Ht [Hw0 _] Ew. exact (proj1 (rew_wigm_ok (bweight b) surp (cvote_of A t h) w Hw0 (proj1 Hs) Ht Ew)).
+  - intros t t' Ht Hm. pose proof (cvote_of_mono (cands t) (cands t') h Hm) as Hle. unfold cvote_of. unfold cvote_of in Ht. lia.
+  - exact (proj2 Hs).
+  - change (for_ballots A (f_gen (is_hopeful A) (fun s b => rew_wigm A (bweight b) surp (cvote_of A s h))) (top_is A h) s2)
+      with (for_ballots A (reweigh_transfer A (is_hopeful A) (rew_wigm A) h surp) (top_is A h) s2) in H3, F3.
+    set (s3 := for_ballots A (reweigh_transfer A (is_hopeful A) (rew_wigm A) h surp) (top_is A h) s2) in *.
+    assert (F3': FR s s3) by (eapply fr_trans; [exact F2|exact F3]).
+    destruct (crashed s3); [split; assumption|]. split; [apply elq_log; apply elq_set_vote_quota; exact H3|].
+    eapply fr_trans; [exact F3'|]. eapply fr_trans; [|apply fr_log]. apply fr_same; reflexivity.
+Qed.
+
+Lemma eq_cfer_fold (l : list cand) : forall s, GH s -> crashed s = false -> NoDup (map (@cid A) l) ->
+  (forall c, In c l -> In c (cands s) /\ is_pending A c = true) -> ElQ s ->
+  crashed (fold_left cfer_step l s) = false ->
+  ElQ (fold_left cfer_step l s) /\ FR s (fold_left cfer_step l s).
+Proof.
+  induction l as [|c0 l IH]; intros s G Hc Hnd Hl H Hcf; cbn [fold_left] in *; [split; [exact H|apply fr_refl]|].
+  inversion Hnd as [|? ? Hnotin Hnd']; subst.
+  assert (Hc1: crashed (cfer_step s c0) = false).
+  { destruct (crashed (cfer_step s c0)) eqn:C; [|reflexivity]. rewrite (cfer_step_crashed l _ C) in Hcf. congruence. }
+  destruct (Hl c0 (or_introl eq_refl)) as [Hin0 Hp0].
+  destruct (gh_cfer_step s c0 G Hc Hin0 Hp0 Hc1) as (G1 & Elb & Hfr).
+  destruct (eq_cfer_step s c0 G Hin0 Hp0 H) as [H1 F1].
+  destruct (IH (cfer_step s c0) G1 Hc1 Hnd') as [H' F']; [|exact H1|exact Hcf|split; [exact H'|eapply fr_trans; [exact F1|exact F']]].
+  intros c Hcl. destruct (Hl c (or_intror Hcl)) as [Hin Hp]. split; [|exact Hp]. apply Hfr; [exact Hin| |].
+  - intros E. apply Hnotin. rewrite <- E. apply in_map. exact Hcl.
+  - unfold is_hopeful, in_state. unfold is_pending, in_state in Hp. destruct (cst c); cbn in *; congruence.
+Qed.
+
+Lemma eq_cfer_transfer_all (s : est) : GH s -> crashed s = false -> ElQ s -> crashed (cfer_transfer_all_pending A cfg s) = false ->
+  ElQ (cfer_transfer_all_pending A cfg s) /\ FR s (cfer_transfer_all_pending A cfg s).
+Proof.
+  intros G Hc H Hcf. unfold cfer_transfer_all_pending in *.
+  change (fold_left _ (pendings A s) s) with (fold_left cfer_step (pendings A s) s) in *.
+  apply eq_cfer_fold; try assumption.
+  - unfold pendings. apply nodup_filter_map. exact (g_nd _ _ (proj1 G)).
+  - intros c Hcp. exact (pending_in s c Hcp).
+Qed.
+
+Lemma eq_cfer_defeat_low (s : est) : GH s -> ElQ s -> ElQ (cfer_defeat_low A cfg s) /\ FR s (cfer_defeat_low A cfg s).
+Proof.
+  intros G H. unfold cfer_defeat_low.
+  destruct (low_candidates A s) as [[lv lows]|] eqn:El; [|split; [apply (elq_same s); [reflexivity|reflexivity|exact H]|apply fr_same; reflexivity]].
+  destruct (bt_frame (bt_simple A cfg "defeat") lows s (bt_simple_logs _) G) as (G1 & Ec1 & Eb1 & Eq1 & Ecr1).
+  assert (H1: ElQ (fst (bt_simple A cfg "defeat" lows s))) by (apply (elq_same s); assumption).
+  pose proof (fr_bt (bt_simple A cfg "defeat") lows s (bt_simple_logs _)) as F1.
+  destruct (bt_simple A cfg "defeat" lows s) as [s1 [l|]]; cbn [fst snd] in *; [|split; assumption].
+  split; [apply (elq_same (defeat A cfg l "Defeat" s1)); [reflexivity|reflexivity|apply elq_defeat; exact H1]|].
+  eapply fr_trans; [exact F1|]. eapply fr_trans; [apply (fr_defeat l "Defeat" s1)|apply fr_same; reflexivity].
+Qed.
+
+
+(* ---- counting the candidates still in the running (elected or hopeful) ---- *)
+Definition eh (c : cand) : bool := in_state A Elected c || in_state A Hopeful c.
+Definition neh (l : list cand) : Z := nlen (filter eh l).
+Lemma neh_split (l : list cand) : neh l = nel l + nlen (filter (in_state A Hopeful) l).
+Proof.
+  unfold neh, nel, nlen, eh. induction l as [|c l IH]; [reflexivity|]. cbn [filter].
+  assert (Hx: in_state A Elected c && in_state A Hopeful c = false) by (unfold in_state; destruct (cst c); reflexivity).
+  destruct (in_state A Elected c), (in_state A Hopeful c); cbn [orb andb] in *; try discriminate; cbn [List.length]; lia.
+Qed.
+Lemma neh_upd_same i f (l : list cand) : (forall c, In c l -> cid c = i -> eh (f c) = eh c) -> neh (upd_cand A i f l) = neh l.
+Proof.
+  unfold neh, nlen, upd_cand. induction l as [|c l IH]; intros H; [reflexivity|]. cbn [map filter].
+  pose proof (IH (fun c' Hc' => H c' (or_intror Hc'))) as IH'. destruct (cid c =? i) eqn:E.
+  - rewrite (H c (or_introl eq_refl) ltac:(lia)). destruct (eh c); cbn [List.length]; lia.
+  - destruct (eh c); cbn [List.length]; lia.
+Qed.
+Definition SatEH (s : est) (j : Z) : Prop := forall c, In c (cands s) -> cid c = j -> eh c = true.
+Lemma neh_elect i m p (s : est) : SatEH s i -> neh (cands (elect A cfg i m p s)) = neh (cands s).
+Proof.
+  intros H. unfold elect. destruct (find_cand A (cands s) i) as [c0|]; [|reflexivity]. rewrite cands_log. unfold upd. cbn [cands set_cands].
+  apply neh_upd_same. intros c Hc Ei. rewrite (H c Hc Ei). reflexivity.
+Qed.
+Lemma sateh_elect i j m p (s : est) : SatEH s j -> SatEH (elect A cfg i m p s) j.
+Proof.
+  intros H c' Hc' Ej. unfold elect in Hc'. destruct (find_cand A (cands s) i) as [c0|]; [|exact (H c' Hc' Ej)].
+  rewrite cands_log in Hc'. unfold upd in Hc'. cbn [cands set_cands] in Hc'.
+  destruct (in_upd_cand' _ _ _ _ Hc') as (c1 & Hc & [[Ei ->]|[Ei ->]]); [reflexivity|exact (H c1 Hc Ej)].
+Qed.
+Lemma neh_fold_elect m p (l : list cand) : forall s : est, (forall c, In c l -> SatEH s (cid c)) ->
+  neh (cands (fold_left (fun s c => elect A cfg (cid c) m p s) l s)) = neh (cands s).
+Proof.
+  induction l as [|c0 l IH]; intros s Hl; cbn [fold_left]; [reflexivity|]. rewrite IH.
+  - apply neh_elect. apply Hl. left; reflexivity.
+  - intros c Hc. apply sateh_elect. apply Hl. right; exact Hc.
+Qed.
+Lemma nel_le_neh (l : list cand) : nel l <= neh l.
+Proof. rewrite neh_split. unfold nlen. lia. Qed.
+Lemma sateh_member (s : est) c : NoDup (map (@cid A) (cands s)) -> In c (cands s) -> eh c = true -> SatEH s (cid c).
+Proof.
+  intros Hnd Hcin He c' Hc' Ei. pose proof (nodup_cid_inj' (cands s) c' c Hnd Hc' Hcin (eq_sym Ei)) as Ecc.
+  first [rewrite Ecc|rewrite <- Ecc]; exact He.
+Qed.
+Lemma sateh_hopefuls (s : est) c : NoDup (map (@cid A) (cands s)) -> In c (hopefuls A s) -> SatEH s (cid c).
+Proof.
+  intros Hnd Hc. unfold hopefuls in Hc. apply filter_In in Hc. destruct Hc as [Hcin Hh]. apply sateh_member; [exact Hnd|exact Hcin|].
+  unfold eh. rewrite Hh. apply orb_true_r.
+Qed.
+Lemma sateh_pendings (s : est) c : NoDup (map (@cid A) (cands s)) -> In c (pendings A s) -> SatEH s (cid c).
+Proof.
+  intros Hnd Hc. destruct (pending_in s c Hc) as [Hcin Hp]. apply sateh_member; [exact Hnd|exact Hcin|].
+  unfold is_pending in Hp. apply andb_prop in Hp. unfold eh. rewrite (proj1 Hp). reflexivity.
+Qed.
+
+
+(* ---- cfer, cfer-batch: the seat bound.  Round 1 may elect every candidate when they all fit; that happens before anybody
+        else is elected (the round counter starts at 0 and only new_round changes it). ---- *)
+Definition Pre3 (s : est) : Prop := Pre2 s /\ round s = 0.
+Definition GR (s : est) : Prop := GE s /\ 1 <= round s.
+Definition GRI (s : est) : Prop := GR s /\ BatchIn s.
+Definition GRD (s : est) : Prop := GR s /\ BatchD s.
+Definition CI (s : est) : Prop := GE s /\ 0 <= round s /\ (round s = 0 -> nel (cands s) = 0).
+
+Lemma gr_step (f : est -> est) (Qb Qc : est -> Prop) : (forall s, round (f s) = round s) ->
+  (forall s, GH s -> EQ s -> crashed s = false -> crashed (f s) = false -> GH (f s) /\ EQ (f s)) ->
+  T3 GR (Do f) GR Qb Qc.
+Proof.
+  intros Hr Hf. apply t_do_nc. intros s [[[G Hc] E] Hrd] Hcf. destruct (Hf s G E Hc Hcf) as [G1 E1].
+  split; [split; [split; assumption|exact E1]|rewrite Hr; exact Hrd].
+Qed.
+
+Lemma nel_zero (l : list cand) : (forall c, In c l -> cst c <> Elected) -> nel l = 0.
+Proof.
+  unfold nel, nlen. induction l as [|c l IH]; intros H; [reflexivity|]. cbn [filter].
+  assert (E: in_state A Elected c = false) by (unfold in_state; pose proof (H c (or_introl eq_refl)); destruct (cst c); try reflexivity; congruence).
+  rewrite E. apply IH. intros c' Hc'. apply H. right; exact Hc'.
+Qed.
+
+Lemma seatsok_of_neh (s : est) : GN s -> neh (cands s) <= cf_nseats cfg -> SeatsOK s.
+Proof. intros G Hn. split; [exact G|]. pose proof (nel_le_neh (cands s)). lia. Qed.
+
+Theorem cfer_seats : T3 Pre3 (cfer A cfg) SeatsOK SeatsOK SeatsOK.
+Proof.
+  unfold cfer. eapply t_seq with (M := CI).
+  { apply t_do_nc. intros s [P Hr0] Hcf. rewrite crashed_log in Hcf. destruct (droop_quota_eps A cfg) as [q|e] eqn:Edq.
+    2:{ unfold start_count in Hcf. rewrite sticky_set_crash in Hcf. discriminate. }
+    destruct (start_ge q s P (droop_quota_eps_nonneg q Edq) (droop_quota_eps_exceeds q Edq) Hcf) as [G E].
+    split; [split; [split; [apply gh_log; exact G|rewrite crashed_log; exact Hcf]|]|].
+    - apply (eq_fr (start_count A (Ok q) s)); [apply fr_log|apply elq_log; exact (proj1 E)|exact E].
+    - rewrite rd_log, rd_start, Hr0. split; [lia|]. intros _. rewrite cands_log.
+      destruct (start_facts q s (proj1 P)) as (Est & _). destruct P as [_ Hne].
+      apply nel_zero. intros c Hcin He.
+      assert (Hin: In (cid c, (cst c, cpend c)) (stl (cands (start_count A (Ok q) s)))) by (unfold Forward.stl; apply in_map_iff; exists c; auto).
+      rewrite Est in Hin. unfold Forward.stl in Hin. apply in_map_iff in Hin. destruct Hin as (c0 & E0 & Hc0).
+      apply (Hne c0 Hc0). pose proof (f_equal (fun x => fst (snd x)) E0) as E1. cbn in E1. congruence. }
+  eapply t_post; [|apply (t_while est (@crashed A) CI SeatsOK)]; [intros s [Hs|[_ Hg]]; [exact Hs|discriminate]|].
+  eapply t_pre; [intros s [Hs _]; exact Hs|].
+  (* new round *)
+  eapply t_seq with (M := fun s => GR s /\ (round s = 1 -> nel (cands s) = 0)).
+  { apply t_do_nc. intros s [[[G Hc] E] [Hr0 Hn0]] Hcf. destruct (ge_new_round s G E) as [G1 E1].
+    assert (Er: round (new_round A cfg s) = round s + 1) by (unfold new_round; rewrite rd_log; reflexivity).
+    split; [split; [split; [split; assumption|exact E1]|lia]|]. intros H1. unfold new_round. rewrite cands_log. apply Hn0. lia. }
+  (* everybody fits: elect all *)
+  eapply t_seq with (M := GR).
+  { apply t_ite; [|apply t_skip'; intros s [[Hs _] _]; exact Hs].
+    eapply t_seq with (M := SeatsOK); [|apply t_break'; auto].
+    apply t_do_nc. intros s [[[[[G Hc] E] Hrd] Hn1] Hg] Hcf. apply andb_prop in Hg. destruct Hg as [Hg1 Hg2].
+    apply seatsok_of_neh; [split; [apply gh_fold_elect_np; exact G|exact Hcf]|].
+    rewrite neh_fold_elect; [|intros c Hcin; apply sateh_hopefuls; [exact (g_nd _ _ (proj1 G))|exact Hcin]].
+    rewrite neh_split, (Hn1 ltac:(lia)). unfold hopefuls in Hg2. lia. }
+  eapply t_seq with (M := GR).
+  { apply gr_step; [intros; apply rd_elect_with_quota|]. intros s G E _ _. apply ge_elect_with_quota; [intros c; apply ge_quota_le|exact G|exact E]. }
+  (* all seats filled *)
+  eapply t_seq with (M := GR).
+  { apply t_ite; [|apply t_skip'; intros s [Hs _]; exact Hs].
+    eapply t_seq with (M := SeatsOK); [|eapply t_seq with (M := SeatsOK); [|apply t_break'; auto]].
+    - apply t_do_nc. intros s [[[[G Hc] E] _] _] Hcf. split; [split; [apply gh_unpend_all; exact G|exact Hcf]|].
+      rewrite (nel_unpend_all s (g_nd _ _ (proj1 G))). exact (seats_bound s (proj1 G) E).
+    - apply t_do_nc. intros s [[G Hc] Hn] Hcf. split; [split; [apply gh_fold_defeat; exact G|exact Hcf]|].
+      pose proof (nel_fold_defeat "Defeat remaining" (hopefuls A s) s). lia. }
+  eapply t_seq with (M := GRI).
+  { apply t_do_nc. intros s [[[G Hc] E] Hrd] _. split; [split; [split; [split; [apply (gh_same s); try reflexivity; exact G|exact Hc]|]|exact Hrd]|].
+    - apply (eq_fr s); [apply fr_same; reflexivity|apply (elq_same s); [reflexivity|reflexivity|exact (proj1 E)]|exact E].
+    - unfold cfer_find_batch. destruct (cf_batch cfg); [|intros i []].
+      apply (batchin_of_hopefuls s _ (cfer_batch A cfg s)); [reflexivity|reflexivity|apply cfer_batch_hopeful]. }
+  eapply t_seq with (M := GRD).
+  { apply t_ite.
+    - apply t_do_nc. intros s [[[[[G Hc] E] Hrd] HB0] _] _. destruct (gh_defeat_batch_order "Defeat batch" s G HB0) as (G1 & Ecr & HD).
+      split; [split; [split; [split; [exact G1|rewrite Ecr; exact Hc]|]|rewrite rd_defeat_batch_order; exact Hrd]|exact HD].
+      apply (eq_fr s); [apply fr_defeat_batch_order|apply elq_defeat_batch_order; exact (proj1 E)|exact E].
+    - apply t_ite.
+      + apply t_do_nc. intros s [[[[[[G Hc] E] Hrd] HB0] Hg] _] Hcf. destruct (gh_cfer_transfer_all s G Hc Hcf) as [G1 Elb].
+        destruct (eq_cfer_transfer_all s G Hc (proj1 E) Hcf) as [H1 F1].
+        split; [split; [split; [split; assumption|exact (eq_fr s _ F1 H1 E)]|rewrite rd_cfer_transfer_all; exact Hrd]|].
+        intros i Hi. rewrite Elb, (nonempty_false _ Hg) in Hi. destruct Hi.
+      + apply t_do_nc. intros s [[[[[[G Hc] E] Hrd] HB0] Hg] _] Hcf. destruct (gh_cfer_defeat_low s G Hc Hcf) as [G1 HD].
+        destruct (eq_cfer_defeat_low s G (proj1 E)) as [H1 F1].
+        split; [split; [split; [split; assumption|exact (eq_fr s _ F1 H1 E)]|rewrite rd_cfer_defeat_low; exact Hrd]|exact HD]. }
+  assert (HCI: forall s, GR s -> CI s).
+  { intros s [Hs Hrd]. split; [exact Hs|]. split; [lia|intros; lia]. }
+  apply t_ite; [|apply t_skip'; intros s [[Hs _] _]; apply HCI; exact Hs].
+  eapply t_seq with (M := GRD).
+  - apply t_ite; [|apply t_skip'; intros s [[Hs _] _]; exact Hs].
+    eapply t_seq with (M := fun s => GN s /\ neh (cands s) <= cf_nseats cfg); [|eapply t_seq with (M := SeatsOK); [|apply t_break'; auto]].
+    + apply t_do_nc. intros s [[[[[[G Hc] E] _] _] _] Hg] Hcf. split; [split; [apply gh_fold_elect_np; exact G|exact Hcf]|].
+      rewrite neh_fold_elect; [|intros c Hcin; apply sateh_pendings; [exact (g_nd _ _ (proj1 G))|exact Hcin]].
+      rewrite neh_split. unfold hopefuls, electeds in Hg. unfold nel. lia.
+    + apply t_do_nc. intros s [[G Hc] Hn] Hcf. apply seatsok_of_neh; [split; [apply gh_fold_elect_np; exact G|exact Hcf]|].
+      rewrite neh_fold_elect; [exact Hn|intros c Hcin; apply sateh_hopefuls; [exact (g_nd _ _ (proj1 G))|exact Hcin]].
+  - apply t_do_nc. intros s [[[[G Hc] E] Hrd] HD] Hcf. destruct is_hopeful_props as (K1 & K2 & K3).
+    destruct (gh_transfer_batch (is_hopeful A) s K1 K2 K3 G Hc HD) as [G1 Hc1]. apply HCI.
+    split; [split; [split; assumption|]|rewrite rd_transfer_batch; exact Hrd].
+    apply (eq_fr s); [apply fr_transfer_batch; exact G|apply elq_transfer_batch; [exact G|exact (proj1 E)|exact HD]|exact E].
+Qed.
+
+
 End Ops.
 End Conserve.
